@@ -393,6 +393,44 @@ func (t *gtree) exec(r *result, op string) string {
 		if !waitFor(bound, func() bool { return n.pool.PendingTasksCounter.Get() == want }) {
 			r.fail("termination", "released task did not finish", map[string]string{"api": "workerpool.Group", "effect": "task-not-finished"})
 		}
+	case "waitp":
+		// Group.WaitParents = Root().WaitChildren()
+		if !t.isGroup(a) || t.anyBusy() {
+			return "skip"
+		}
+		root := a
+		for t.nodes[root].parent >= 0 {
+			root = t.nodes[root].parent
+		}
+		if returnsOrBlocks(t.nodes[a].group.WaitParents, func() bool { return t.nodes[root].value() == 0 }) == "returns" {
+			for q, n := range t.nodes {
+				if t.below(root, q) && n.value() != 0 {
+					r.fail("group-wait", fmt.Sprintf("WaitParents of group %d returned while node %d of its tree has counter %d", a, q, n.value()),
+						map[string]string{"api": "workerpool.Group.WaitParents", "effect": "returned-with-pending-below"})
+				}
+			}
+
+			return "returns"
+		}
+
+		return "blocks"
+	case "root":
+		if !t.isGroup(a) {
+			return "skip"
+		}
+		for q, n := range t.nodes {
+			if n.group != nil && n.group == t.nodes[a].group.Root() {
+				return strconv.Itoa(q)
+			}
+		}
+
+		return "unknown-root"
+	case "pools":
+		if !t.isGroup(a) {
+			return "skip"
+		}
+
+		return strconv.Itoa(len(t.nodes[a].group.Pools()))
 	case "wait":
 		if !t.isGroup(a) {
 			return "bad-op"
@@ -514,8 +552,14 @@ func genGroupOps(rng *hx.Rng, n int) []string {
 				pend[q]--
 			}
 			ops = append(ops, fmt.Sprintf("g dec %d", q)) // also emitted at zero: both sides must skip
-		default:
+		case x < 93:
 			ops = append(ops, fmt.Sprintf("g wait %d", hx.Pick(rng, groups)))
+		case x < 96:
+			ops = append(ops, fmt.Sprintf("g waitp %d", hx.Pick(rng, groups)))
+		case x < 98:
+			ops = append(ops, fmt.Sprintf("g root %d", hx.Pick(rng, groups)))
+		default:
+			ops = append(ops, fmt.Sprintf("g pools %d", hx.Pick(rng, groups)))
 		}
 	}
 	for k := 0; k < nsubs; k++ {
